@@ -1,6 +1,6 @@
 (* C19 -- row events fire exactly once, in order, and their edits take effect.
-   Only the property theorems (closed by `exact`), non-vacuity examples,
-   refutation witnesses and Print Assumptions.
+   Only the property theorems (closed by `exact`), non-vacuity examples and
+   Print Assumptions.
 
    Vocabulary (Model/Events.v): g : cfg holds the listener tables of an eager
    and a lazyUpdate class (any number of listeners, each a (signal, program)
@@ -9,11 +9,13 @@
    outcome, ordered trace (ESig = delivery of a signal to one listener with
    the kwargs as found, EPost = a post callback ran, EWrite = INSERT/UPDATE/
    DELETE) and post-state.  spec_events = the documented sequence of a
-   successful operation.  guard g ops excludes the trigger class of the open
-   finding: attribute assignments whose RowUpdateSignal receivers change the
-   KEY SET of the one-entry dict.  Failing operations (ill-typed values,
-   missing required columns, unknown instances) may occur anywhere in the
-   histories quantified over; the theorems speak about the successful steps. *)
+   successful operation.  All histories and all listener tables: there is no
+   guard any more (the defects of _SO_setValue with receivers that change the
+   key set of an assignment's dict were repaired by 480ba65; such an
+   assignment now simply is set() of what the receivers left).  Failing
+   operations (ill-typed values, missing required columns, unknown instances)
+   may occur anywhere in the histories; the theorems speak about the
+   successful steps. *)
 From Coq Require Import List ZArith NArith Bool.
 From Model Require Import Events.
 From Proofs Require Import EventsBase EventsStep EventsHist EventsChain EventsRead.
@@ -22,27 +24,18 @@ Open Scope Z_scope.
 
 (* ------------------------------------------------------------------ exactly once, in order *)
 
-(* The full statement: every successful step of every history has exactly the
-   documented trace.  The unchanged code falsifies it (refuted below). *)
-Definition C19_exactly_once_in_order_full : Prop :=
+(* Every successful step of every history: before-signal to each receiver in
+   registration order (each finding the dict as the earlier ones left it), the
+   write, the callbacks of the before-signal, the after-signal to each
+   receiver, its callbacks -- nothing else, nothing twice. *)
+Theorem C19_exactly_once_in_order :
   forall g ops r, In r (run g init ops) -> succeeded (r_out r) = true ->
-    r_tr r = spec_events g (r_pre r) (r_op r).
-
-Theorem C19_exactly_once_in_order_refuted : ~ C19_exactly_once_in_order_full.
-Proof. exact (@full_exactly_once_refuted). Qed.
-
-(* Outside the trigger class: before-signal to each receiver in registration
-   order (each finding the dict as the earlier ones left it), the write, the
-   callbacks of the before-signal, the after-signal to each receiver, its
-   callbacks -- nothing else, nothing twice. *)
-Theorem C19_exactly_once_in_order_partial :
-  forall g ops r, guard g ops = true -> In r (run g init ops) -> succeeded (r_out r) = true ->
     r_tr r = spec_events g (r_pre r) (r_op r).
 Proof. exact (@hist_spec). Qed.
 
 (* the same for the log of a whole history *)
-Theorem C19_log_is_concat_of_spec_partial :
-  forall g ops, guard g ops = true ->
+Theorem C19_log_is_concat_of_spec :
+  forall g ops,
     concat (map r_tr (filter (fun r => succeeded (r_out r)) (run g init ops)))
     = concat (map (fun r => spec_events g (r_pre r) (r_op r))
                   (filter (fun r => succeeded (r_out r)) (run g init ops))).
@@ -51,40 +44,47 @@ Proof. exact (@hist_spec_concat). Qed.
 (* read off as counts: a listener registered for signal s on the operation's
    class receives s exactly once if the operation owes s (its before- or
    after-signal), and not at all otherwise ... *)
-Theorem C19_each_listener_once_partial :
-  forall g ops r s a i, guard g ops = true -> In r (run g init ops) -> succeeded (r_out r) = true ->
+Theorem C19_each_listener_once :
+  forall g ops r s a i, In r (run g init ops) -> succeeded (r_out r) = true ->
     In (i, (s, a)) (tab g (op_cls (r_op r))) ->
     count (is_sig_to s i) (r_tr r) = if owed (r_pre r) (r_op r) s then 1%nat else 0%nat.
 Proof. exact (@hist_once). Qed.
 
 (* ... and nothing is delivered under a number that is not registered for s *)
-Theorem C19_nobody_else_partial :
-  forall g ops r s i, guard g ops = true -> In r (run g init ops) -> succeeded (r_out r) = true ->
+Theorem C19_nobody_else :
+  forall g ops r s i, In r (run g init ops) -> succeeded (r_out r) = true ->
     (forall a, ~ In (i, (s, a)) (tab g (op_cls (r_op r)))) ->
     count (is_sig_to s i) (r_tr r) = 0%nat.
 Proof. exact (@hist_nobody_else). Qed.
 
 (* around the write: after a write no before-signal is delivered any more,
    after an after-signal delivery nothing is written any more *)
-Theorem C19_order_around_write_partial :
-  forall g ops r, guard g ops = true -> In r (run g init ops) -> succeeded (r_out r) = true ->
+Theorem C19_order_around_write :
+  forall g ops r, In r (run g init ops) -> succeeded (r_out r) = true ->
     (forall tr1 w tr2, r_tr r = tr1 ++ EWrite w :: tr2 ->
        forall k i kw li, ~ In (ESig (fst (around (r_op r))) k i kw li) tr2)
     /\ (forall tr1 k i kw li tr2, r_tr r = tr1 ++ ESig (snd (around (r_op r))) k i kw li :: tr2 ->
        forall w, ~ In (EWrite w) tr2).
 Proof. exact (@hist_ordered). Qed.
 
+(* an attribute assignment is set() of the one-entry dict in every respect
+   (state, outcome, trace) -- in particular when a receiver adds columns or
+   removes the assigned one: one validation of what is left, at most one
+   UPDATE (none if nothing is left), one RowUpdatedSignal *)
+Theorem C19_assignment_is_set :
+  forall g st k id c v, step g st (OAssign k id c v) = step g st (OSet k id [(c, v)]).
+Proof. exact (@step_assign_is_set). Qed.
+
 (* ------------------------------------------------------------------ fetching *)
 
 (* get (cache hit or miss) and select: no event of any kind, no write, the
-   state is unchanged -- in every history, no guard *)
+   state is unchanged *)
 Theorem C19_no_create_on_fetch :
   forall g ops r, In r (run g init ops) -> is_fetch (r_op r) = true -> r_tr r = [] /\ r_post r = r_pre r.
 Proof. exact (@hist_fetch). Qed.
 
 (* more generally no operation other than a creation ever delivers
-   RowCreateSignal or RowCreatedSignal -- every history, failing steps and the
-   trigger class included *)
+   RowCreateSignal or RowCreatedSignal -- failing steps included *)
 Theorem C19_create_events_only_from_create :
   forall g ops r s, In r (run g init ops) -> is_create (r_op r) = false -> (s = SCreate \/ s = SCreated) ->
     existsb (is_sig s) (r_tr r) = false.
@@ -96,8 +96,8 @@ Proof. exact (@hist_no_create). Qed.
    it (create: plus defaults, as one new row under the next id; eager update:
    written into the row; lazy update: held back in the instance and written
    by syncUpdate) *)
-Theorem C19_rewrites_stored_partial :
-  forall g ops r, guard g ops = true -> In r (run g init ops) -> succeeded (r_out r) = true ->
+Theorem C19_rewrites_stored :
+  forall g ops r, In r (run g init ops) -> succeeded (r_out r) = true ->
     k_tbl (ks (r_post r) (op_cls (r_op r))) = spec_table g (r_pre r) (r_op r)
     /\ forall k id, op_target (r_op r) = Some (k, id) -> pend_of (r_post r) k id = spec_pend g (r_pre r) (r_op r).
 Proof. exact (@hist_table). Qed.
@@ -107,8 +107,8 @@ Proof. exact (@hist_table). Qed.
 (* a callback appended to the post_funcs of signal s runs after the write and
    after s has been delivered to everybody: behind it the trace has no write
    and no delivery of s *)
-Theorem C19_post_callbacks_after_partial :
-  forall g ops r, guard g ops = true -> In r (run g init ops) -> succeeded (r_out r) = true ->
+Theorem C19_post_callbacks_after :
+  forall g ops r, In r (run g init ops) -> succeeded (r_out r) = true ->
     forall tr1 s t k id tr2, r_tr r = tr1 ++ EPost s t k id :: tr2 ->
       (forall w, ~ In (EWrite w) tr2) /\ (forall k' i kw li, ~ In (ESig s k' i kw li) tr2).
 Proof. exact (@hist_posts_after). Qed.
@@ -129,35 +129,25 @@ Theorem C19_inherit_created_after_all_levels :
     /\ (forall a, In a (lineage (cr_lvl r)) -> has_row id (ctable (cr_post r) a) = true).
 Proof. exact (@chain_hist). Qed.
 
-(* ------------------------------------------------------------------ the defects, on the model of the unchanged code *)
-
-(* a receiver adds a column to the dict of an attribute assignment: every step
-   succeeds, RowUpdatedSignal reaches its listener twice and two UPDATEs run *)
-Theorem C19_double_after_event_refuted :
-  exists r, In r (run g_add init ops_add)
-    /\ Forall (fun x => succeeded (r_out x) = true) (run g_add init ops_add)
-    /\ count (is_sig_to SUpdated 1) (r_tr r) = 2%nat
-    /\ count is_write (r_tr r) = 2%nat.
-Proof. exact (@add_witness). Qed.
-
-(* a receiver removes the assigned column: the assignment raises KeyError
-   although what the receivers left is a valid (empty) update *)
-Theorem C19_assign_keyerror_refuted :
-  exists r, In r (run g_del init ops_add)
-    /\ r_out r = Exn XKeyError
-    /\ validate (final_kw SUpdate (sel SUpdate (tab g_del KEager)) [(CA, VInt 5)]) = true.
-Proof. exact (@del_witness). Qed.
-
-(* the delegated set() raises: the suppress flag stays on the instance; a
-   later ordinary set() (inside the guard itself) succeeds without its
-   before-event and stores the caller's arguments, not the rewritten ones *)
-Theorem C19_suppress_flag_leak_refuted :
-  exists r, In r (run g_leak init ops_leak)
-    /\ op_guard g_leak (r_op r) = true /\ succeeded (r_out r) = true
-    /\ count (is_sig SUpdate) (r_tr r) = 0%nat
-    /\ count (is_sig SUpdate) (spec_events g_leak (r_pre r) (r_op r)) = 1%nat
-    /\ k_tbl (ks (r_post r) KEager) <> spec_table g_leak (r_pre r) (r_op r).
-Proof. exact (@leak_witness). Qed.
+(* ------------------------------------------------------------------ regressions of the defects fixed by 480ba65 *)
+(* a receiver adds column b to the dict of obj.a = 5: ONE UPDATE of both columns, ONE RowUpdatedSignal *)
+Example C19_fixed_added_key :
+  map r_tr (skipn 1 (run g_add init ops_add))
+  = [[ESig SUpdate KEager (Some 1) [(CA, VInt 5)] 0;
+      EWrite (WUpdate KEager 1 [(CA, VInt 5); (CB, VStr [120%N])]); ESig SUpdated KEager (Some 1) [] 1]].
+Proof. vm_compute. reflexivity. Qed.
+(* a receiver removes the assigned column: the assignment succeeds, writes nothing, the after-event is sent *)
+Example C19_fixed_removed_key :
+  map (fun r => (r_out r, r_tr r)) (skipn 1 (run g_del init ops_add))
+  = [(Done, [ESig SUpdate KEager (Some 1) [(CA, VInt 5)] 0; ESig SUpdated KEager (Some 1) [] 1])]
+  /\ k_tbl (s_e (fold_left (fun st o => fst (fst (step g_del st o))) ops_add init)) = [(1, [(CA, VInt 1); (CB, VNull); (CC, VInt 7)])].
+Proof. vm_compute. split; reflexivity. Qed.
+(* the delegated set() raises Invalid: the following set() gets its before-event, the rewritten dict is stored *)
+Example C19_fixed_flag_not_left :
+  map (fun r => (r_out r, r_tr r)) (skipn 1 (run g_leak init ops_leak))
+  = [(Exn XInvalid, [ESig SUpdate KEager (Some 1) [(CA, VStr [120%N])] 0]);
+     (Done, [ESig SUpdate KEager (Some 1) [(CC, VInt 4)] 0; EWrite (WUpdate KEager 1 [(CB, VStr [121%N]); (CC, VInt 4)])])].
+Proof. vm_compute. reflexivity. Qed.
 
 (* ------------------------------------------------------------------ non-vacuity *)
 Definition ex_g : cfg :=
@@ -171,8 +161,6 @@ Definition ex_ops : list op :=
    OSet KLazy 1 [(CA, VInt 2)]; OSync KLazy 1; OSet KEager 1 [(CB, VInt 0)]; OCreate KEager [];
    OSelect KLazy; ODestroy KEager 1].
 
-Example C19_guard_nonvacuous : guard ex_g ex_ops = true.
-Proof. vm_compute. reflexivity. Qed.
 (* ten of the twelve steps succeed, two fail (ill-typed value, missing column) *)
 Example C19_outcomes :
   map r_out (run ex_g init ex_ops)
@@ -208,17 +196,14 @@ Example C19_chain_nonvacuous :
   = [CDone 1; CDone 2; CExn XInvalid; CDone 4].
 Proof. vm_compute. reflexivity. Qed.
 
-Print Assumptions C19_exactly_once_in_order_refuted.
-Print Assumptions C19_exactly_once_in_order_partial.
-Print Assumptions C19_log_is_concat_of_spec_partial.
-Print Assumptions C19_each_listener_once_partial.
-Print Assumptions C19_nobody_else_partial.
-Print Assumptions C19_order_around_write_partial.
+Print Assumptions C19_exactly_once_in_order.
+Print Assumptions C19_log_is_concat_of_spec.
+Print Assumptions C19_each_listener_once.
+Print Assumptions C19_nobody_else.
+Print Assumptions C19_order_around_write.
+Print Assumptions C19_assignment_is_set.
 Print Assumptions C19_no_create_on_fetch.
 Print Assumptions C19_create_events_only_from_create.
-Print Assumptions C19_rewrites_stored_partial.
-Print Assumptions C19_post_callbacks_after_partial.
+Print Assumptions C19_rewrites_stored.
+Print Assumptions C19_post_callbacks_after.
 Print Assumptions C19_inherit_created_after_all_levels.
-Print Assumptions C19_double_after_event_refuted.
-Print Assumptions C19_assign_keyerror_refuted.
-Print Assumptions C19_suppress_flag_leak_refuted.
